@@ -1,3 +1,284 @@
+//! C01, C02, C03 — pico histories (G-HIST) against the real database and a reference model.
+//! See `interp.rs` for the interpreter, the function family and the oracles.
+use proptest::prelude::*;
+use serde_json::{Value, json};
+use vcore::{Args, Fail, Report, Tier};
+
+mod interp;
+mod miri;
+
+use interp::{CallSpec, IntKey, Op, Options, Outcome, RawFn};
+
 fn main() {
-    vcore::inconclusive("pico_hist: not built yet");
+    let args = vcore::parse_args();
+    match args.property.as_str() {
+        "C01" | "C02" | "C03" => run(&args),
+        other => vcore::inconclusive(&format!("pico_hist: unknown property {other}")),
+    }
+}
+
+// ------------------------------------------------------------------------------------------------
+// G-HIST strategies
+// ------------------------------------------------------------------------------------------------
+
+fn key() -> impl Strategy<Value = u8> {
+    0..interp::KEYS
+}
+fn val() -> impl Strategy<Value = i32> {
+    -2..=2i32
+}
+fn name() -> impl Strategy<Value = u8> {
+    prop_oneof![3 => 0..3u8, 1 => Just(9u8)]
+}
+fn keys() -> impl Strategy<Value = Vec<u8>> {
+    prop::collection::vec(key(), 0..=3)
+}
+fn int_key() -> impl Strategy<Value = IntKey> {
+    prop_oneof![
+        3 => Just(IntKey::CfgRaw),
+        2 => key().prop_map(IntKey::ValRaw),
+        2 => Just(IntKey::SumRaw),
+        1 => (-1..=2i32).prop_map(IntKey::Interned),
+    ]
+}
+
+fn call_spec() -> impl Strategy<Value = CallSpec> {
+    use CallSpec::*;
+    prop_oneof![
+        1 => key().prop_map(ValOf),
+        1 => key().prop_map(ValOfRef),
+        3 => Just(CfgOr),
+        2 => key().prop_map(ClampOf),
+        3 => Just(SumTracked),
+        1 => key().prop_map(UntrackedVal),
+        1 => keys().prop_map(SumKeys),
+        1 => keys().prop_map(SumKeysRef),
+        2 => Just(Branchy),
+        1 => Just(CfgRaw),
+        1 => key().prop_map(ValRaw),
+        1 => Just(SumRaw),
+        2 => int_key().prop_map(DoubleRef),
+        1 => int_key().prop_map(DoubleRefB),
+        2 => Just(Quad),
+        1 => Just(Rows),
+        1 => Just(RowsB),
+        2 => name().prop_map(RowRef),
+        2 => name().prop_map(RowRefB),
+        2 => name().prop_map(RowScore),
+        1 => name().prop_map(RowScoreB),
+        1 => Just(InternedCfg),
+        1 => (-1..=2i32).prop_map(UseInterned),
+        1 => Just(UseChain),
+        1 => (name(), any::<bool>()).prop_map(|(n, b)| RowParamVia(n, b)),
+    ]
+}
+
+fn raw_fn() -> impl Strategy<Value = RawFn> {
+    prop_oneof![1 => Just(RawFn::CfgRaw), 1 => key().prop_map(RawFn::ValRaw), 2 => Just(RawFn::SumRaw)]
+}
+
+/// weights: (writes, calls, gc-related)
+fn op(gc_heavy: bool) -> impl Strategy<Value = Op> {
+    let g = if gc_heavy { 3 } else { 1 };
+    prop_oneof![
+        6 => (key(), val()).prop_map(|(k, v)| Op::Set(k, v)),
+        2 => key().prop_map(Op::Remove),
+        3 => val().prop_map(Op::SetCfg),
+        1 => Just(Op::RemoveCfg),
+        4 => key().prop_map(Op::TrackedInsert),
+        1 => key().prop_map(Op::TrackedRemove),
+        22 => call_spec().prop_map(Op::Call),
+        1 => (-1..=2i32).prop_map(Op::InternValue),
+        2 * g => any::<u16>().prop_map(Op::Lookup),
+        g => raw_fn().prop_map(Op::Retain),
+        g => any::<u16>().prop_map(Op::RetainHandle),
+        g => any::<u16>().prop_map(Op::ClearRetain),
+        g => any::<u16>().prop_map(Op::NeverGc),
+        2 * g => Just(Op::Gc),
+    ]
+}
+
+type History = (usize, Vec<Op>);
+
+fn history(gc_heavy: bool, max_len: usize) -> impl Strategy<Value = History> {
+    (1..=3usize, prop::collection::vec(op(gc_heavy), 1..=max_len))
+}
+
+pub fn history_json(h: &History) -> Value {
+    json!({"cap": h.0, "ops": h.1.iter().map(|o| o.encode()).collect::<Vec<_>>()})
+}
+
+pub fn history_from_json(v: &Value) -> Option<History> {
+    let cap = v["cap"].as_u64()? as usize;
+    let mut ops = vec![];
+    for o in v["ops"].as_array()? {
+        ops.push(Op::decode(o.as_str()?)?);
+    }
+    Some((cap, ops))
+}
+
+// ------------------------------------------------------------------------------------------------
+// judging an outcome for one property
+// ------------------------------------------------------------------------------------------------
+
+/// Which failure classes count for which property (see `interp::Failure::class`).
+fn counts_for(property: &str, class: &str) -> bool {
+    match property {
+        // "every memoized call returns a value equal to ...": a call that panics returned nothing
+        "C01" => matches!(class, "C01" | "PANIC-CALL"),
+        "C02" => matches!(class, "C02"),
+        // "never breaks reads / no undefined behaviour": any pico panic counts
+        "C03" => matches!(class, "C03" | "PANIC-CALL" | "PANIC-OTHER"),
+        _ => false,
+    }
+}
+
+fn judge(property: &str, report: &Report, h: &History, out: &Outcome) -> Result<(), Fail> {
+    let nontrivial = match property {
+        "C01" => out.nontrivial_c01,
+        "C02" => out.nontrivial_c02,
+        _ => out.nontrivial_c03,
+    };
+    let labels: Vec<&str> = out.labels.iter().copied().collect();
+    let text = interp::encode_history(h.0, &h.1);
+    report.case(if nontrivial { Some(text.as_str()) } else { None }, &labels);
+    report.label_n("ops-executed", out.executed_ops as u64);
+    report.label_n("ops-skipped(outside-contract-or-not-live)", out.skipped_ops as u64);
+    report.label_n("body-executions", out.body_executions);
+    report.label_n("lookups-checked", out.lookups_checked);
+    if nontrivial {
+        report.sample("non-trivial", 3, || history_json(h));
+    } else {
+        report.sample("trivial", 1, || history_json(h));
+    }
+    match &out.failure {
+        None => Ok(()),
+        Some(f) if f.class == "HARNESS" => Err(Fail::new(format!("harness-internal:{}", f.signature), format!("step {}: {}", f.step, f.message))),
+        Some(f) if counts_for(property, f.class) => Err(Fail::new(f.signature.clone(), format!("step {}: {}", f.step, f.message))),
+        Some(f) => {
+            report.label(&format!("cut-short-by-other-property:{}:{}", f.class, f.signature));
+            Ok(())
+        }
+    }
+}
+
+fn options(report: &Report, property: &str) -> Options {
+    // Known findings recorded as open are excluded by construction so the search continues
+    // behind them (the exclusion is counted in the evidence).
+    let listed = |sig: &str| report.known_findings().iter().any(|k| k.signature == sig);
+    let _ = property;
+    Options {
+        exclude_absent_singleton_read: !report.strict && std::env::var("VERIF_PICO_EXCLUDE_ABSENT").is_ok(),
+        exclude_equal_value_write: !report.strict && listed("spurious-reexecution:equal-value-write") && std::env::var("VERIF_PICO_EXCLUDE_EQ").is_ok(),
+    }
+}
+
+fn rule(property: &str) -> &'static str {
+    match property {
+        "C01" => {
+            "histories (LRU capacity 1..=3, <=40 ops over 3 keyed sources + 1 singleton + 1 tracked map, 25 memoized \
+             function shapes) interpreted against pico and a never-memoizing model; non-trivial = the history \
+             calls a memoized function again after a write changed one of its transitive inputs; distinct by history text"
+        }
+        "C02" => {
+            "same histories; per-(function,args) execution counters judged by the early-cut-off model; non-trivial = an \
+             equal-value write after an unrelated change is followed by a call of a cached reader of that source, or an \
+             intermediate with cached dependents re-ran with an equal value (backdating)"
+        }
+        _ => {
+            "GC-heavy histories; non-trivial = a collection ran with more distinct top-level calls than the LRU \
+             capacity, or with a retained query; execution counters and handle lookups judged against the root model \
+             (retained + LRU closure)"
+        }
+    }
+}
+
+fn run(args: &Args) {
+    let property = args.property.as_str();
+    let report = Report::new(args, "exploration", rule(property));
+    report.engine("stateful");
+    report.engine("pbt");
+    report.assumption("memoized bodies are pure functions of what they read through the database (the harness writes them once, generic over pico and the model)");
+    report.assumption("documented pico preconditions hold by construction: no write during a call, SourceId arguments only while the source exists, a tracked-map entry is removed together with its source, untracked() only for present keys, RetainedQuery always cleared or made permanent");
+    if property == "C03" {
+        report.assumption("handles are looked up only while the model says they have a stated contract: obtained after the last write, and from a node in the closure of the GC roots if a collection ran since; a pointer-kind (intern_ref) handle is never retained on its own");
+    }
+    let opts = options(&report, property);
+
+    let run_one = |h: &History| -> Outcome {
+        match vcore::catch_panic(|| interp::run_history(h.0, &h.1, &opts)) {
+            Ok(o) => o,
+            Err(p) => vcore::inconclusive(&format!("pico_hist interpreter panicked outside a guarded region: {p}")),
+        }
+    };
+
+    if let Some(path) = &args.replay {
+        let doc = vcore::read_replay(path);
+        let Some(h) = history_from_json(&doc["input"]) else { vcore::inconclusive("replay input is not a history") };
+        let strict = Options::default();
+        let out = match vcore::catch_panic(|| interp::run_history(h.0, &h.1, &strict)) {
+            Ok(o) => o,
+            Err(p) => vcore::inconclusive(&format!("interpreter panicked: {p}")),
+        };
+        let r = judge(property, &report, &h, &out);
+        report.case(Some("replay-marker-1"), &[]);
+        report.case(Some("replay-marker-2"), &[]);
+        if property == "C03" {
+            if let Err(f) = miri::replay_under_miri(&report, std::slice::from_ref(&h)) {
+                report.violation("replay-miri", &f, doc["input"].clone());
+            }
+        }
+        if let Err(f) = r {
+            harness_guard(&f);
+            report.violation("replay", &f, doc["input"].clone());
+        }
+        report.finish();
+    }
+
+    report.run_regressions(|input| {
+        let Some(h) = history_from_json(input) else { return Err(Fail::new("harness-internal:bad-regression-input", "not a history")) };
+        let out = run_one(&h);
+        judge(property, &report, &h, &out)
+    });
+
+    let gc_heavy = property == "C03";
+    let cases = match property {
+        "C01" => args.tier.pick(6000, 400_000),
+        "C02" => args.tier.pick(6000, 400_000),
+        _ => args.tier.pick(6000, 300_000),
+    };
+    let workers = vcore::num_workers();
+    let found = vcore::run_prop_parallel(
+        &report,
+        "histories",
+        cases,
+        workers,
+        || history(gc_heavy, 40),
+        |h: &History| {
+            let out = run_one(h);
+            judge(property, &report, h, &out)
+        },
+    );
+    if let Some((h, fail)) = found {
+        harness_guard(&fail);
+        report.violation("history", &fail, history_json(&h));
+    }
+    report.unfreeze();
+
+    if property == "C03" && report.violation_count() == 0 {
+        miri::miri_tier(&report, args, &opts);
+    }
+    report.finish();
+}
+
+fn harness_guard(f: &Fail) {
+    if f.signature.starts_with("harness-internal") {
+        println!("harness-internal failure: {}\n{}", f.signature, f.message);
+        vcore::inconclusive("the reference model and the interpreter disagree about the harness itself (not a verdict about pico)");
+    }
+}
+
+#[allow(dead_code)]
+fn tier_name(t: Tier) -> &'static str {
+    t.as_str()
 }
